@@ -360,7 +360,7 @@ def refused_stream_watermark_rule(F, chk):
     cands = [p for p in F.paths() if p.startswith(H2) and p.endswith("::handle_header_state")]
     if not r.require(cands, "handle_header_state not found"):
         return
-    b = F.body(cands[0])
+    b = lib.flat(F, F.body(cands[0]), keep=("::refuse_stream_and_discard",))    # `raise the watermark, then refuse` may be one private helper
     r.fn(b.path)
     refusals = [bi for bi, t in b.calls() if callee_of(t).endswith("::refuse_stream_and_discard")]
     writes = [bi for bi, si, st in b.stmts() if isinstance(st.get("lhs"), dict) and proj_fields(st["lhs"]) and proj_fields(st["lhs"])[-1][2] == "highest_peer_stream_id"]
